@@ -301,6 +301,38 @@ def Stack.unset : Stack → String → Stack
   | f :: rest, x =>
     if (Frame.find f x).isSome then Frame.update f x absent :: rest else f :: Stack.unset rest x
 
+/-! ### operator precedence, as documented -/
+
+/-- The operator-precedence table of reference-dsl-operators.md, from the LOOSEST level to the
+tightest (the document lists them the other way round), with the documented associativity. -/
+def documentedPrecedence : List (List String × String) := [
+  (["?:"], "right"),
+  (["||"], "left"),
+  (["^^"], "left"),
+  (["&&"], "left"),
+  (["==", "!=", "=~", "!=~", "<=>"], "left"),
+  (["<", "<=", ">", ">="], "left"),
+  (["|"], "left"),
+  (["^"], "left"),
+  (["&"], "left"),
+  (["<<", ">>", ">>>"], "left"),
+  (["+", "-"], "left"),
+  (["*", "/", "//", "%"], "left"),
+  (["."], "left"),
+  (["!", "~", "+", "-"], "prefix"),
+  (["??"], "left"),
+  (["???"], "left"),
+  (["**"], "right")]
+
+/-- The int-preserving dot operators (reference-main-arithmetic.md) go with the operator they vary. -/
+def dotVariantOf : String → Option String
+  | ".+" => some "+" | ".-" => some "-" | ".*" => some "*" | "./" => some "/" | ".//" => some "//" | _ => none
+
+/-- The binary levels between `||` and `*`, dot variants included: what the reference parser climbs. -/
+def binaryLevels : List (List String) :=
+  ((documentedPrecedence.drop 1).take 11).map fun (ops, _) =>
+    ops ++ ([".+", ".-", ".*", "./", ".//"].filter fun d => match dotVariantOf d with | some o => ops.contains o | none => false)
+
 /-! ### programs -/
 
 inductive Expr where
@@ -932,10 +964,18 @@ mutual
         | _, _, _ => pure error
       | .dot a b => do
         let av ← eval p fuel a
-        let bv ← eval p fuel b
         match av with
-        | .map _ => liftR (indexRead av bv)
-        | _ => liftR (binScalar "." av bv)
+        | .map kvs =>
+          -- map.attribute: the attribute is the right operand's TOKEN (a name or a number), not its value;
+          -- the right operand is not evaluated
+          match b with
+          | .loc n => pure ((mget kvs (Miller.str n)).getD absent)
+          | .lit (.int i) => pure ((mget kvs (intText i)).getD absent)
+          | .lit (.str _) | .lit .void => pure absent        -- the token keeps its quotes: no such key
+          | _ => failM (.unmodelled "map traversal by a compound expression")
+        | _ => do
+          let bv ← eval p fuel b
+          liftR (binScalar "." av bv)
       | .un op a => do
         let av ← eval p fuel a
         liftR (unScalar op av)
@@ -1092,18 +1132,19 @@ mutual
       | "reduce", [.map [], .fn _] => pure absent
       | "reduce", [.map ((k, v) :: kvs), .fn f] => foldKV p fuel f (.map [(k, v)]) kvs
       | "fold", [.map kvs, .fn f, init] => foldKV p fuel f init kvs
-      | "any", [.arr xs, .fn f] => do
-        let ys ← mapFn p fuel f xs
-        if ys.all (fun y => match y with | .s (.bool _) => true | _ => false) then
-          pure (vbool (ys.any fun y => match y with | .s (.bool true) => true | _ => false))
-        else failM .fatal
-      | "every", [.arr xs, .fn f] => do
-        let ys ← mapFn p fuel f xs
-        if ys.all (fun y => match y with | .s (.bool _) => true | _ => false) then
-          pure (vbool (ys.all fun y => match y with | .s (.bool true) => true | _ => false))
-        else failM .fatal
+      | "any", [.arr xs, .fn f] => anyEvery p fuel true f xs
+      | "every", [.arr xs, .fn f] => anyEvery p fuel false f xs
       | "sort", [.arr xs, .fn f] => sortFn p fuel f xs
       | _, _ => failM (.unmodelled ("higher-order " ++ name))
+
+  /-- `any` stops at the first true, `every` at the first false; what follows is not evaluated. -/
+  def anyEvery (p : Prog) : Nat → Bool → String → List DV → M DV
+    | 0, _, _, _ => failM .fuel
+    | _ + 1, isAny, _, [] => pure (vbool (!isAny))
+    | fuel + 1, isAny, f, x :: xs => do
+      match ← callFn p fuel f [x] with
+      | .s (.bool b) => if b == isAny then pure (vbool isAny) else anyEvery p fuel isAny f xs
+      | _ => failM .fatal
 
   def mapFn (p : Prog) : Nat → String → List DV → M (List DV)
     | 0, _, _ => failM .fuel
